@@ -52,7 +52,7 @@ CHECKS = {
   design="DESIGN.md §5 C14"),
  "C15": dict(
   technique="runtime monitor: abstract model of independent growable tables checked after every operation of bounded-exhaustive and random operation histories + structural invariant hooks (block layout, stack heads, intern cache)",
-  text="Every history of length<=4 (6 thorough) over 9 operation kinds on SimpleGarnishData and on BasicGarnishData under 9 size/growth configurations (initial 0,1,2 x +1,+2,x2, default), with a full read-back of all data values, symbol names, instructions, jump entries, registers, value stack and frame chain plus the block-layout invariant after every single operation; every interning sequence of length 3 (4) over 15 constants including hash-stream alias pairs; random histories of 1500 (6000) operations.",
+  text="Every history of length<=4 (6 thorough) over 9 operation kinds (incl. symbol-list merges, multi-byte symbol names and symbols made from a number's text) on SimpleGarnishData and on BasicGarnishData under 9 size/growth configurations (initial 0,1,2 x +1,+2,x2, default), with a full read-back of all data values, symbol names, instructions, jump entries, registers, value stack and frame chain plus the block-layout invariant after every single operation; every interning sequence of length 3 (4) over 15 constants including hash-stream alias pairs; stores holding thousands of distinct constants, each added a second time; random histories of 1500 (6000) operations.",
   note="trusts the table model; storage settings are reached through a verif_hooks constructor because the crate does not export their types",
   design="DESIGN.md §5 C15"),
  "C16": dict(
@@ -87,12 +87,12 @@ CHECKS = {
   design="DESIGN.md §5 C10"),
  "C17": dict(
   technique="runtime monitor: recorded host-callback history (resolve / apply events at the GarnishData boundary and inside the stores' native hooks) checked against an independent reference evaluator's expected call log and value",
-  text="Templates with identifiers and externals at operand positions (incl. partial applications of host-provided values and of expressions), every small AST that mentions an identifier, and random programs are run under hosts that resolve none/some/all symbols (to values and externals) and accept or decline external applies, with input values defining none/some/all identifiers (lists, pairs, concatenations, slices). Each program runs four ways: wrapper-scripted host on both stores, SimpleGarnishData::set_resolver, and a BasicDataCompanion implementing resolve and apply. The recorded sequence of resolve(symbol) / apply(external, argument) calls and the final value must equal the reference evaluator's; the log written inside the native callback must equal the one at the trait boundary. Held on the programs observed.",
+  text="Templates with identifiers and externals at operand positions (incl. partial applications of host-provided values and of expressions), every small AST that mentions an identifier, and random programs are run under hosts that resolve none/some/all symbols (to values and externals) and accept or decline external applies, with input values defining none/some/all identifiers (lists, pairs, concatenations, slices). Each program runs four ways: wrapper-scripted host on both stores, SimpleGarnishData::set_resolver, and a BasicDataCompanion implementing resolve and apply. The recorded sequence of resolve(symbol) / apply(external, argument) calls and the final value must equal the reference evaluator's, and the deferred-operation hook must not be called in a program in which the reference defers nothing; the log written inside the native callback must equal the one at the trait boundary. Held on the programs observed.",
   note="trusts: the reference evaluator's lookup rule (input value first, then host) and left-to-right operand order; SimpleGarnishData has no apply hook, so native acceptance of external applies is exercised on BasicGarnishData only (as the property scopes it)",
   design="DESIGN.md §5 C17"),
  "C18": dict(
   technique="runtime monitor: metamorphic oracle over executions - each generated program is run as printed and after every single meaning-free layout rewrite (and random combinations); observed parse tree, final value on both stores and host-call sequence are compared; where a rewrite is admissible is decided by the reference lexer and reference parser, not by the code under test",
-  text="Every small AST and random larger programs are rewritten at every position: widen / replace / remove blank runs, insert a blank or an annotation between adjacent tokens, annotation or comment line inside a blank run, trailing blanks before line breaks and at the end, comment lines after line breaks and at the start, parentheses around every operand, effect-free side-effect blocks added after every value or group, before every plain operand that follows a binary operator or a comma, and dropped where present, plus random combinations of 2..7 rewrites. The rewritten text must parse to the same tree (modulo trivia, added groups, added blocks) and produce the same value and resolve-call sequence on both stores. Held on the programs and rewrite positions observed. The repository's own tests/scripts/*.garnish files (whole, and cut into prefixes / suffixes) are part of the corpus.",
+  text="Every small AST, random larger programs and the bounded restart loops of C01 are rewritten at every position: widen / replace / remove blank runs, insert a blank or an annotation between adjacent tokens, annotation or comment line inside a blank run, trailing blanks before line breaks and at the end, comment lines after line breaks and at the start, parentheses around every operand, effect-free side-effect blocks added after every value or group, before every plain operand that follows a binary operator or a comma, as the first thing inside a group or expression literal, and dropped where present, plus random combinations of 2..7 rewrites. The rewritten text must parse to the same tree (modulo trivia, added groups, added blocks), produce the same value and resolve-call sequence on both stores, and still terminate (a program that finished in n steps and is still running after 20 000 >= 40 n once rewritten is a violation). Held on the programs and rewrite positions observed. The repository's own tests/scripts/*.garnish files (whole, and cut into prefixes / suffixes) are part of the corpus.",
   note="trusts: the reference lexer/parser as the judge of where blanks may be added or removed; programs with side-effect blocks have no reference tree and only get rewrites that need no confirmation plus the structural ones",
   design="DESIGN.md §5 C18"),
  "C19": dict(
@@ -102,7 +102,7 @@ CHECKS = {
   design="DESIGN.md §5 C19"),
  "C20": dict(
   technique="runtime monitor: recorded build/run histories on one shared monitored data object; per-build stream compared (rebased) with the same program built alone, earlier programs' pieces re-read after every later build and run (offline snapshot comparison), results compared with the alone runs",
-  text="Pairs and triples of hand-picked programs and random sequences of 2..4 generated programs are built into one data object in every order (4 random orders for 4 programs), with runs of already-built programs interleaved between builds in four patterns, on both stores. Each build's instruction range, jump-entry range and reported entry are recorded; its rebased stream must equal that of the program built alone (so every jump, expression value and data operand names its own pieces or an equal constant); every earlier program's instructions, jump entries and constants must read back unchanged after each later build and run; each program run from its reported entry must stay inside its own instructions, restore the stacks and give the value and step count of its run alone. Held on the sequences, orders and interleavings observed.",
+  text="Pairs and triples of hand-picked programs (incl. programs whose build fails, programs without a significant token, casts between text and symbols) and random sequences of 2..4 generated programs are built into one data object in every order (4 random orders for 4 programs), with runs of already-built programs interleaved between builds in four patterns, on both stores. Each build's instruction range, jump-entry range and reported entry are recorded; its rebased stream must equal that of the program built alone (so every jump, expression value and data operand names its own pieces or an equal constant); every earlier program's instructions, jump entries and constants must read back unchanged after each later build and run; each program run from its reported entry must stay inside its own instructions, restore the stacks and give the value and step count of its run alone. Held on the sequences, orders and interleavings observed.",
   note="trusts: the alone-build of the same source as the reference for what a program's stream should be (C05/C06 check that stream by itself)",
   design="DESIGN.md §5 C20"),
 }
